@@ -1052,7 +1052,15 @@ func main() {
 						}
 					}
 
-					// TODO Periodic set
+					// Periodic set: every period that divides the tick
+					for _, act := range sdrive.PeriodicSets(i) {
+						for k, val := range act {
+							*sdrive.Injectables[k] = val
+							if inIdx, ok := sdrive.NeedValid[k]; ok {
+								vm.InputsValid[inIdx] = true
+							}
+						}
+					}
 
 					if *emit_dot {
 						gvfile := bmach.Dot(conf, "", vm, pstatevm)
